@@ -9,6 +9,7 @@ import (
 	"io"
 	"net/http"
 	"runtime/debug"
+	"sort"
 	"strings"
 	"sync"
 	"time"
@@ -483,37 +484,106 @@ func Trunc(s string, n int) string { return trunc(s, n) }
 // Plan plans the operation with a planner of its own over the same data sources and returns the
 // post-processed fetch tree pretty-printed (diagnostics; Run uses the engine's own planner).
 func (l *Lab) Plan(operation, operationName string) (string, error) {
+	sp, err := l.planResponse(operation, operationName)
+	if err != nil {
+		return "", err
+	}
+	return sp.Response.Fetches.QueryPlan().PrettyPrint(), nil
+}
+
+// PlanFields describes the fields the post-processed response plan holds at a response path (response keys,
+// no list indices): one line per resolve.Field of that name with its own and inherited type conditions, e.g.
+// `pf7 on=[Facet1A] parentOn=[1:User]`.  Several lines = the renderer decides per object which one applies.
+func (l *Lab) PlanFields(operation, operationName string, path []string) ([]string, error) {
+	sp, err := l.planResponse(operation, operationName)
+	if err != nil {
+		return nil, err
+	}
+	if sp.Response == nil || sp.Response.Data == nil {
+		return nil, nil
+	}
+	objs := []*resolve.Object{sp.Response.Data}
+	var out []string
+	for i, key := range path {
+		var next []*resolve.Object
+		for _, o := range objs {
+			for _, f := range o.Fields {
+				if string(f.Name) != key {
+					continue
+				}
+				if i == len(path)-1 {
+					out = append(out, describeField(f))
+					continue
+				}
+				v := f.Value
+				for v != nil && v.NodeKind() == resolve.NodeKindArray {
+					v = v.(*resolve.Array).Item
+				}
+				if ob, ok := v.(*resolve.Object); ok && ob != nil {
+					next = append(next, ob)
+				}
+			}
+		}
+		objs = next
+	}
+	return out, nil
+}
+
+func describeField(f *resolve.Field) string {
+	names := func(xs [][]byte) string {
+		ss := make([]string, len(xs))
+		for i, x := range xs {
+			ss[i] = string(x)
+		}
+		sort.Strings(ss)
+		return strings.Join(ss, ",")
+	}
+	s := string(f.Name)
+	if f.OnTypeNames != nil {
+		s += " on=[" + names(f.OnTypeNames) + "]"
+	}
+	if f.ParentOnTypeNames != nil {
+		var ps []string
+		for _, p := range f.ParentOnTypeNames {
+			ps = append(ps, fmt.Sprintf("%d:%s", p.Depth, names(p.Names)))
+		}
+		s += " parentOn=[" + strings.Join(ps, ";") + "]"
+	}
+	return s
+}
+
+func (l *Lab) planResponse(operation, operationName string) (*plan.SynchronousResponsePlan, error) {
 	req := &graphql.Request{Query: operation, OperationName: operationName}
 	nres, err := req.Normalize(l.Schema, astnormalization.WithRemoveFragmentDefinitions(),
 		astnormalization.WithRemoveUnusedVariables(), astnormalization.WithInlineFragmentSpreads())
 	if err != nil {
-		return "", err
+		return nil, err
 	}
 	if !nres.Successful {
-		return "", nres.Errors
+		return nil, nres.Errors
 	}
 	if nres, err = req.Normalize(l.Schema, astnormalization.WithExtractVariables()); err != nil {
-		return "", err
+		return nil, err
 	} else if !nres.Successful {
-		return "", nres.Errors
+		return nil, nres.Errors
 	}
 	var report operationreport.Report
 	astnormalization.NewVariablesMapper().NormalizeOperation(req.Document(), l.Schema.Document(), &report)
 	if report.HasErrors() {
-		return "", report
+		return nil, report
 	}
 	planner, err := plan.NewPlanner(l.planConfig)
 	if err != nil {
-		return "", err
+		return nil, err
 	}
 	p := planner.Plan(req.Document(), l.Schema.Document(), operationName, &report, plan.IncludeQueryPlanInResponse())
 	if report.HasErrors() {
-		return "", report
+		return nil, report
 	}
 	postprocess.NewProcessor().Process(p)
 	sp, ok := p.(*plan.SynchronousResponsePlan)
 	if !ok {
-		return "", fmt.Errorf("not a synchronous plan")
+		return nil, fmt.Errorf("not a synchronous plan")
 	}
-	return sp.Response.Fetches.QueryPlan().PrettyPrint(), nil
+	return sp, nil
 }
